@@ -1338,6 +1338,19 @@ class TInterp:
             self._obs("norm", v, np.linalg.norm(a.model), np.linalg.norm(a.model), rel=1e-8)
         # norms are homogeneous: the same on a (non-registered) tiny / huge multiple, relative to its own scale
         n0 = np.linalg.norm(a.model)
+        if n0 > 1e-6 and not self.sctx.single_node:
+            # lossless compression of a tiny multiple: singular values carry the norm, nothing may be cut on an absolute scale
+            for fac in (1e-13, 1e-20):
+                ok, y = self.guard("observe.compress_scaled.scale", a.obj.scale, fac)
+                if not ok:
+                    continue
+                ok, _ = self.guard("observe.compress_scaled", lambda: (y.canonicalise(), y.compress(temp_m_trunc=BIG)))
+                if ok:
+                    ok, d = self.guard("observe.compress_scaled.todense", self.dense, y)
+                    if ok:
+                        err = np.linalg.norm(np.asarray(d) / fac - a.model) / n0
+                        self.r.check("observe.compress_scaled.dense", err <= 1e-8,
+                                     f"lossless compress of {fac:g} x state: relative change {err:.3e} trace={self.trace[-6:]}")
         if n0 > 1e-6:
             for fac in (3e-6, 2e5):
                 ok, y = self.guard("observe.norm_scaled.scale", a.obj.scale, fac)
